@@ -19,6 +19,7 @@ import binascii
 import os
 import time
 
+from .. import c05_multiconn
 from .. import coqterm as T
 from ..conn_common import (Recorder, cache_sasl_entry_points, coq_bytes, has_bye,
                            run_exchange, small_dict_env, tagged, write_cmd_table)
@@ -581,8 +582,11 @@ class Shadow:
         self.exists = dict(BOX_COUNTS)
 
 
-def monitor_sequence(ctx, variant_name: str, keys: list[str], res: dict) -> None:
+def monitor_sequence(ctx, variant_name: str, keys: list[str], res: dict,
+                     shared_data: bool = False) -> None:
     sh = Shadow()
+    # (other connections of the same world may change the mailboxes at any time)
+    sh.dirty = shared_data
     replay = {'variant': variant_name, 'keys': keys}
     if res['greeting']['closed']:
         return
@@ -820,7 +824,7 @@ def _worker(batch):
         out = []
         with Recorder() as rec:
             for vname, keys in batch:
-                out.append(await asyncio.wait_for(run_sequence(rec, VARIANTS[vname], keys), 60))
+                out.append(await asyncio.wait_for(run_sequence(rec, VARIANTS[vname], keys), 900))
         return out
     return asyncio.run(main())
 
@@ -938,7 +942,7 @@ def run(ctx) -> None:
     table, changed = write_cmd_table()
     ctx.extra['cmd_table'] = {'entries': len(table), 'rewritten': changed,
                               'ungated': [e['name'] for e in table if not e['gated']]}
-    ctx.check_proofs(['Conn/ConnCheck'])
+    ctx.check_proofs(['Conn/ConnCheck', 'Conn/MultiConnCheck'])
     check_alphabet_complete(ctx, table)
     ctx.extra['t_proofs_s'] = round(time.time() - t0, 1)
     seqs = gen_sequences(ctx)
@@ -963,6 +967,9 @@ def run(ctx) -> None:
     ctx.extra['sequence_length_histogram'] = dict(sorted(lens.items()))
     ctx.sample({'variant': uniq[-1][0], 'keys': uniq[-1][1],
                 'conds': [s['cond'] for s in results[-1]['steps']]})
+    # several connections on one server object (harness/c05_multiconn.py): run + monitors now
+    # (the terms are interned into the shared header), Coq comparison below
+    worlds = c05_multiconn.prepare(ctx)
     t2 = time.time()
     hdr = header_with_symbols()
     bad = ctx.run_cases('conn_sequences', hdr, 'conn_case', cases, 'chk_conn',
@@ -982,11 +989,14 @@ def run(ctx) -> None:
                       [c['meth'] + ':' + c.get('out', '?') for c in s['calls']])
                      for s in res['steps']],
             'model': where[-1500:]})
+    c05_multiconn.check(ctx, worlds, hdr)
     erasure_check(ctx, ctx.scale(100, 2000))
 
 
 def replay(ctx, obj) -> int:
     import asyncio
+    if 'events' in obj:
+        return c05_multiconn.replay(ctx, obj)
     cache_sasl_entry_points()
     keys = obj.get('keys') or []
     vname = obj.get('variant', 'plain')
